@@ -172,7 +172,7 @@ type raceFinding struct {
 	Example string   `json:"report"`
 }
 
-func raceCollect(run *ev.Run, replay bool) {
+func raceCollect(run *ev.Run) {
 	if !raceEnabled {
 		run.HarnessBug("binary was not built with -race")
 		return
